@@ -103,6 +103,25 @@ Run(cont, calls, i) == RunH(cont, << >>, calls, i)
 RECURSIVE Final(_, _)
 Final(cont, calls) == IF Len(calls) = 0 THEN cont ELSE Final(ApplyCall(cont, Head(calls)).cont, Tail(calls))
 
+\* NewMessage / NewHeader over the whole argument space that matters to the header: both flags, message IDs at the ends of
+\* the range, SPIs zero / non-zero / all ones, exchange types defined or not -- the header carries exactly the arguments
+HeaderStep(c) ==
+  Step("new_message", "C19", FALSE, [call |-> c],
+       [panic |-> FALSE, msg |-> Norm(NewMessageD(c, << >>)), isresp |-> c.response, isinit |-> c.initiator,
+        hdr |-> [ispi |-> c.ispi, rspi |-> c.rspi, maj |-> 2, min |-> 0, xt |-> c.xt,
+                 flags |-> (IF c.response THEN 32 ELSE 0) + (IF c.initiator THEN 8 ELSE 0), mid |-> c.mid, np |-> c.np, pb |-> TRUE]])
+HeaderSweepVector(k) ==
+  LET Z8 == << 0, 0, 0, 0, 0, 0, 0, 0 >>
+      F8 == << 255, 255, 255, 255, 255, 255, 255, 255 >>
+      x == << 0, 34, 35, 36, 37, 43, 255 >>[((k - 1) % 7) + 1]
+      r == << << 9, 8, 7, 6, 5, 4, 3, 2 >>, Z8, F8 >>[((k - 1) \div 7) + 1]
+      S == { [fn |-> "NewMessage", rep |-> TRUE, ispi |-> i, rspi |-> r, xt |-> x, response |-> rs, initiator |-> it, mid |-> m, np |-> (x * 7 + 33) % 256] :
+               i \in { << 1, 2, 3, 4, 5, 6, 7, 8 >>, Z8 },
+               rs \in BOOLEAN, it \in BOOLEAN, m \in { << 0, 0, 0, 0 >>, << 0, 0, 0, 1 >>, << 128, 0, 0, 0 >>, << 255, 255, 255, 255 >> } }
+      q == SetToSeqAny(S) IN
+  Vector("headers", [j \in 1..Len(q) |-> HeaderStep(q[j])])
+NHeaderSweeps == 21
+
 BuilderVector(calls, nm) ==
   LET cont == Final(<< >>, calls) IN
   Vector("builders",
